@@ -401,3 +401,24 @@ PROPS["C16"] = {
             env={"VERIF_INSTRUMENTED": "1"}, checks=(8, 150), shards=(16, 16), tests=["run"], replay_attempts=20),
     ],
 }
+
+PROPS["C19"] = {
+    "title": "The proxy relays both directions byte-for-byte and reports traffic safely",
+    "level": "exploration",
+    "technique": "property-based testing (rapid) of generated TCP sessions through the real proxy binary (byte equality both ways, process survival, report template / relayed-substring oracle) + in-process property of the report feed",
+    "level_text": ("Process-level exploration: one proxy process per shard, built from the tree and configured as an operator would, relays generated sessions between a test "
+                   "client and a test upstream server on loopback - valid frames, CRC-valid frames with malformed content of every decodable type (including very short "
+                   "MSM payloads), corrupted frames, junk and payloads rich in '<', '>', '</div>', '<script>', in generated chunkings and pauses in both directions; both "
+                   "byte streams must arrive unchanged, the process must survive, and /status/report must match the fixed template with markup-free traffic sections and "
+                   "list only frames that are contiguous parts of the relayed client-to-server traffic. The same template oracle runs in-process on ReportFeed.Status "
+                   "for thousands of generated buffers and message lists. TLS mode and several simultaneous clients are outside the statement."),
+    "rule": ("relay: (client->server pieces + chunk/pause script, server->client pieces + script, fetch report or not); report: (client buffer, server buffer, message pieces, "
+             "buffers present or not). Non-trivial = the session carries a 0xD3-led frame and markup bytes / the traffic contains '<' or '>' and at least one message is "
+             "listed; distinct = distinct case hash."),
+    "assumptions": ["escaping is required for '<' and '>' only - the two characters the project's own Sanitise defines", "the proxy needs record_messages=true to start (it dereferences its log writer at start-up); that precondition is outside the property", "loopback TCP semantics", "Go toolchain, rapid v1.3.0"],
+    "min_evals": {"quick": 2000, "thorough": 40000},
+    "legs": [
+        Leg("report", "c19", "^TestReport$", checks=(2000, 20000), shards=(2, 16), tests=["report"]),
+        Leg("relay", "c19", "^TestRelay$", engine="process", app=["proxy"], checks=(40, 1500), shards=(8, 16), tests=["relay"], replay_attempts=3),
+    ],
+}
